@@ -205,6 +205,9 @@ class RoundTrip:
         if isinstance(r, Var) and r.path in ERR_PATHS:
             return ("reject", "converter returns an error: %r" % (r.args[:1],))
         if isinstance(r, Var) and r.path in OK_PATHS:
+            u = find_unknown(r.args[0])
+            if u is not None:
+                return ("reject", "converter not evaluable: %r" % (u,))
             return r.args[0]
         return ("reject", "converter result %r" % (r,))
 
@@ -216,6 +219,30 @@ class RoundTrip:
         if t is None:
             return None, "printer output contains an opaque value: %r" % (r,)
         return t, None
+
+
+def find_unknown(v, depth=0):
+    """an Unknown buried in a structure (a field whose computation could not be evaluated, e.g. a modelled panic)"""
+    if is_unknown(v):
+        return v
+    if depth > 60:
+        return None
+    if isinstance(v, Var):
+        for x in list(v.args) + list(v.fields.values()):
+            u = find_unknown(x, depth + 1)
+            if u is not None:
+                return u
+    elif isinstance(v, ListV):
+        for x in v.items:
+            u = find_unknown(x, depth + 1)
+            if u is not None:
+                return u
+    elif isinstance(v, tuple):
+        for x in v:
+            u = find_unknown(x, depth + 1)
+            if u is not None:
+                return u
+    return None
 
 
 def strip_spans(v):
